@@ -193,7 +193,7 @@ def eval_read(r, m):
             corr = "unmodelled"     # the model reads as a for loop does (order enforced); next(reader) bypasses the order check
         elif m != i:
             from .. import colcases
-            if any(colcases.dontcare_numeric(p) or colcases.dontcare_uuid(p) for l in lines for f in l.split("\t") for p in [f] + f.split(";")):
+            if any(colcases.dontcare_numeric(p) or colcases.dontcare_uuid(p) for l in lines for f in l.rstrip("\r\n").split("\t") for p in [f] + f.split(";")):
                 corr = "dontcare"
             else:
                 keys = [k for k in sorted(set(m) | set(i)) if m.get(k) != i.get(k)]
